@@ -601,6 +601,46 @@ macro_rules! acyclic_runner {
                 if range_all != order {
                     return st.fail(kind, "range", format!("range(..) = {:?} differs from nodes_iter() = {:?}", range_all, order));
                 }
+                // every form of bounds between two positions of the order
+                if order.len() >= 1 {
+                    use std::ops::Bound::{Excluded, Included, Unbounded};
+                    let salt = (st.step * 7 + order.len() * 3 + m.m_live()) as usize;
+                    let (mut i, mut j) = (salt % order.len(), (salt / 3) % order.len());
+                    if i > j {
+                        std::mem::swap(&mut i, &mut j);
+                    }
+                    let r = catch(|| {
+                        let (p, q) = (ac.get_position(ni(order[i])), ac.get_position(ni(order[j])));
+                        let c = |it: &mut dyn Iterator<Item = NodeIndex<Ix>>| -> Vec<usize> { it.map(|x| x.index()).collect() };
+                        vec![
+                            ("p..q", c(&mut ac.range(p..q)), order[i..j].to_vec()),
+                            ("p..=q", c(&mut ac.range(p..=q)), order[i..=j].to_vec()),
+                            ("p..", c(&mut ac.range(p..)), order[i..].to_vec()),
+                            ("..q", c(&mut ac.range(..q)), order[..j].to_vec()),
+                            ("..=q", c(&mut ac.range(..=q)), order[..=j].to_vec()),
+                            ("(Excluded(p), Included(q))", c(&mut ac.range((Excluded(p), Included(q)))), if i < j { order[i + 1..=j].to_vec() } else { vec![] }),
+                            ("(Excluded(p), Excluded(q))", c(&mut ac.range((Excluded(p), Excluded(q)))), if i < j { order[i + 1..j].to_vec() } else { vec![] }),
+                            ("(Excluded(p), Unbounded)", c(&mut ac.range((Excluded(p), Unbounded))), order[i + 1..].to_vec()),
+                            ("(Included(p), Unbounded)", c(&mut ac.range((Included(p), Unbounded))), order[i..].to_vec()),
+                            ("(Unbounded, Excluded(q))", c(&mut ac.range((Unbounded, Excluded(q)))), order[..j].to_vec()),
+                        ]
+                    });
+                    match r {
+                        Ok(v) => {
+                            for (form, got, exp) in v {
+                                if got != exp {
+                                    return st.fail(kind, "range", format!("range({}) with p = position of node {} and q = position of node {} gives {:?}, the order {:?} implies {:?}", form, order[i], order[j], got, order, exp));
+                                }
+                            }
+                        }
+                        // (Excluded(p), Excluded(p)) and the like may be refused by the underlying BTreeMap
+                        Err(p) => {
+                            if i < j {
+                                return st.fail(kind, "observe-panic", format!("range over two different positions panicked after {}: {}", kind, p));
+                            }
+                        }
+                    }
+                }
                 for (n, _p, back) in &pos {
                     if *back != Some(*n) {
                         return st.fail(kind, "position-inverse", format!("at_position(get_position({})) = {:?}", n, back));
